@@ -124,6 +124,9 @@ def _is_guarded(path):
     return _guarded[path]
 
 
+_GEN_AST = {}
+
+
 def _lib_generated(rng):
     prog = gen.gen_c05_program(rng)
     names = sorted({s[1] for s in prog["init"] if s[0] == "assign"})
@@ -131,6 +134,7 @@ def _lib_generated(rng):
     mapping = dict(zip(names, pool)) if rng.random() < 0.6 else {}
     prog = rename_vars(prog, mapping)
     text = render_program(prog, rng.choice(["frac", "frac", "decimal", "minimal"]))
+    _GEN_AST["gen:" + hashlib.sha256(text.encode()).hexdigest()[:10]] = prog
     vs = [mapping.get(n, n) for n in names]
     goals = []
     for _ in range(rng.choice([1, 2, 3])):
@@ -181,6 +185,32 @@ def _lib_functional(rng):
     goals = [{"monom": g, "kind": "raw"} for g in dict.fromkeys(rng.sample(pool, rng.choice([2, 3, 3])))]
     return {"kind": "lib", "pid": "fun:" + hashlib.sha256(text.encode()).hexdigest()[:10], "program": {"text": text}, "goals": goals,
             "options": dict(rng.choice([{}, {}, {"exact_func_moments": True}])), "api": rng.choice(["raw", "common", "common"]), "force_cyclic": False}
+
+
+GEOM_FAMILIES = [["2", "4", "8", "1/2", "1/4", "16"], ["3", "9", "1/3", "27"], ["2", "3", "6", "12", "18", "1/6"], ["-2", "4", "-8", "-1/2"],
+                 ["-1", "1", "2", "-2"], ["2/3", "4/9", "3/2", "9/4"]]
+
+
+def _lib_geometric(rng):
+    """deterministic loops whose variables grow geometrically with multiplicatively dependent ratios (x = 4*x; y = 2*y gives
+    x = y**2): the exponent lattice has a non-trivial basis whose computation sees the ratios in goal order"""
+    fam = rng.choice(GEOM_FAMILIES)
+    k = rng.choice([2, 2, 3, 3, 4])
+    vs = ["x", "y", "z", "w"][:k]
+    ratios = [rng.choice(fam) for _ in vs]
+    inits = [rng.choice(["1", "1", "2", "3", "-1"]) for _ in vs]
+    lines = [f"{v} = {c}" for v, c in zip(vs, inits)]
+    body = [f"    {v} = {'(' + r + ')' if r[0] == '-' or '/' in r else r}*{v}" for v, r in zip(vs, ratios)]
+    if rng.random() < 0.3:
+        lines.append("s = 0")
+        body.append(f"    s = s + {rng.choice(vs)}")
+        vs = vs + ["s"]
+    rng.shuffle(body)
+    text = "\n".join(lines + ["while true:"] + body + ["end"]) + "\n"
+    goals = [{"monom": v, "kind": "raw"} for v in vs]
+    rng.shuffle(goals)
+    return {"kind": "lib", "pid": "geo:" + hashlib.sha256(text.encode()).hexdigest()[:10], "program": {"text": text}, "goals": goals,
+            "options": {}, "api": rng.choice(["raw", "common"]), "force_cyclic": False, "invariants": True}
 
 
 def _lib_error(rng):
@@ -323,8 +353,10 @@ def gen_case(seed, extra=None):
             s = _lib_functional(rng)
         elif r < 0.68:
             s = _lib_generated(rng)
-        elif r < 0.71:
+        elif r < 0.685:
             s = _lib_functional(rng)
+        elif r < 0.71:
+            s = _lib_geometric(rng)
         elif r < 0.76:
             # a pair over the same draw: once inside a branch, once at top level
             d = rng.choice(BRANCH_DRAWS)
@@ -355,7 +387,7 @@ def gen_case(seed, extra=None):
     if rng.random() < 0.35 and any(s["kind"] == "lib" for s in sessions):
         # the same program again, goals permuted
         libs = [s for s in sessions if s["kind"] == "lib"]
-        gens = [s for s in libs if str(s.get("pid", "")).startswith("gen:")]
+        gens = [s for s in libs if str(s.get("pid", "")).startswith(("gen:", "geo:"))]
         base = rng.choice(gens) if gens and rng.random() < 0.7 else rng.choice(libs)
         dup = copy.deepcopy(base)
         rng.shuffle(dup["goals"])
@@ -364,6 +396,17 @@ def gen_case(seed, extra=None):
             if dup.get("invariants"):
                 dup["options"] = {k: v for k, v in dup["options"].items() if not k.startswith("numeric")}
         sessions.append(dup)
+    side = _random.Random(f"sibling|{seed}")        # its own stream: worlds without a sibling stay what they were
+    gens = [s for s in sessions if s["kind"] == "lib" and s.get("pid") in _GEN_AST]
+    if gens and side.random() < 0.3:
+        # a sibling of a generated program in the same world: same names and conditions, other value sets / parameters
+        base = side.choice(gens)
+        sib = gen.sibling(_GEN_AST[base["pid"]], side)
+        if sib is not None:
+            text = render_program(sib, side.choice(["frac", "frac", "minimal"]))
+            s2 = copy.deepcopy(base)
+            s2.update(pid="sib:" + hashlib.sha256(text.encode()).hexdigest()[:10], program={"text": text})
+            sessions.insert(side.randrange(len(sessions) + 1) if sessions[0]["kind"] != "cli" else side.randrange(1, len(sessions) + 1), s2)
     # step lists
     from .sessions import make_session
     remaining = []
